@@ -5,7 +5,7 @@ import sys, re, json, os, glob, concurrent.futures
 sys.path.insert(0, '/verif')
 from vf import selftest as S
 pat = sys.argv[1]
-metas = [S.parse(p) for p in sorted(glob.glob('/verif/mutants/*.patch'))]
+metas = [S.parse(p) for p in sorted(glob.glob('/verif/mutants/*.patch') + (glob.glob('/tmp/pending-neg/*.patch') if os.environ.get('PENDING') else []))]
 metas = [m for m in metas if m.get('kind') == 'negative' and re.search(pat, m['name'])]
 props = [c['property_id'] for c in json.load(open('/verif/MANIFEST.json'))['checks']]
 jobs = []
